@@ -97,7 +97,7 @@ def json_schema(
                     )
                 )
             ).lstrip("\n")
-            or None
+            or ""
         ),
         "type": "object",
         "properties": properties,
